@@ -3,7 +3,7 @@
 # (so that the main trees stay usable meanwhile). Prints one line per seed: "<seed> <PROPERTY> VIOLATION(concrete|nfi)|MISSED".
 set -u
 pat=${1:-C}
-W=/tmp/sr
+W=${SEEDALL_W:-/tmp/sr}
 export GOFLAGS=-mod=mod GOPROXY=off GOSUMDB=off GOTOOLCHAIN=local
 rm -rf $W; mkdir -p $W
 git -C /verif worktree prune; git -C /repo worktree prune
